@@ -93,7 +93,20 @@ CliLaw(r) == IF r.multi = ConcatStr(r.singles) THEN "ok" ELSE "Cli.concatenation
 ---------------------------------------------------------------------------
 (* C18: an HTML-based contrib renderer gives the HTML renderer's output    *)
 (* (plus the fixed suffix of MathJax) when its extension is not used.      *)
-ConservativeLaw(r) == IF r.outR = r.outHtml \o r.suffix THEN "ok" ELSE "Conservative." \o r.renderer
+(* Strings travel in the ASCII image of harness/proj.py:asc, in which a    *)
+(* line end is the two characters backslash, n.                            *)
+IsScriptLine(s) ==
+    /\ Len(s) >= 20
+    /\ SubSeq(s, 1, 8) = "<script "
+    /\ SubSeq(s, Len(s) - 10, Len(s)) = "</script>\\n"
+
+ConservativeLaw(r) ==
+    IF r.renderer = "MathJaxRenderer"
+    THEN IF /\ Len(r.outR) > Len(r.outHtml)
+            /\ SubSeq(r.outR, 1, Len(r.outHtml)) = r.outHtml
+            /\ IsScriptLine(SubSeq(r.outR, Len(r.outHtml) + 1, Len(r.outR)))
+         THEN "ok" ELSE "Conservative.MathJaxRenderer"
+    ELSE IF r.outR = r.outHtml THEN "ok" ELSE "Conservative." \o r.renderer
 
 ---------------------------------------------------------------------------
 (* C10 (document level): reflowing with limit L.                           *)
